@@ -26,6 +26,12 @@ CHECKS = {
  'C09': ('exploration', 'seeded deterministic simulation: conservation invariant on yylineno over the recorded history (self-relative oracle)',
          'sampled scenarios x plans; invariant evaluated at every action entry, op and yylex return',
          'trusts: only the event log; no tokeniser model is involved', '6 C09'),
+ 'C13': ('exploration', 'seeded deterministic simulation under ASan/UBSan with an allocation ledger, junk-fill differential and destroy/reuse differential',
+         'sampled scenarios x plans from the union of the other workloads; every allocator call is ledgered; a third of the plans are re-run with another fill pattern and (non-reentrant) against a fresh process',
+         'trusts: ASan/UBSan; uninitialised reads are visible only when they change behaviour under a different fill pattern (MSan unusable here)', '6 C13'),
+ 'C14': ('fault_enumeration', 'deterministic fault injection: every allocator call and every stdio read index of each sampled run is failed in turn',
+         'per sampled (scenario, plan): exhaustive over the A allocator calls (k-th fails) and the R reads (EIO / EINTR at index j) of the fault-free run',
+         'trusts: faults are injected at the yyalloc seam and at the fopencookie read callback (not real signals); read(2) path and C++ new[] not driven', '6 C14'),
  'C10': ('exploration', 'seeded deterministic simulation: EOF instants, source chains, yywrap policies and post-termination calls, checked against the stream reference model',
          'sampled scenarios x plans; the end-of-source instant is placed by the read schedule, premature end indications included',
          'trusts: the reference matcher with triage; a pending yymore prefix across a source change is relaxed (manual silent)', '6 C10'),
